@@ -104,6 +104,14 @@ func valid(c Case) bool {
 	if len(c.Cfgs) == 0 {
 		return false
 	}
+	if c.Root.IncEmpty || c.Root.ExcEmpty {
+		return false
+	}
+	for _, pc := range c.Cfgs {
+		if (pc.S.IncEmpty && pc.S.Inc != "") || (pc.S.ExcEmpty && pc.S.Exc != "") {
+			return false
+		}
+	}
 	st := newStatic(&c)
 	seen := map[string]bool{}
 	for _, pc := range c.Cfgs {
@@ -152,6 +160,8 @@ func settingsReductions(s *Settings, apply func()) []func() {
 		func() { s.All = nil },
 		func() { s.Inc = "" },
 		func() { s.Exc = "" },
+		func() { s.IncEmpty = false },
+		func() { s.ExcEmpty = false },
 		func() { s.Rec = nil },
 		func() { s.ExSub = nil },
 		func() {
@@ -215,7 +225,7 @@ func reductions(c Case) []Case {
 	for i := range c.Cfgs {
 		i := i
 		try(func(x *Case) { x.Cfgs = append(x.Cfgs[:i], x.Cfgs[i+1:]...) })
-		for n := 0; n < 7; n++ {
+		for n := 0; n < 9; n++ {
 			n := n
 			try(func(x *Case) { settingsReductions(&x.Cfgs[i].S, nil)[n]() })
 		}
@@ -240,7 +250,7 @@ func reductions(c Case) []Case {
 			}
 		}
 	}
-	for n := 0; n < 7; n++ {
+	for n := 0; n < 9; n++ {
 		n := n
 		try(func(x *Case) { settingsReductions(&x.Root, nil)[n]() })
 	}
